@@ -36,6 +36,7 @@ type Touch struct {
 
 type Env struct {
 	mu     sync.Mutex
+	handed []handed
 	Config map[string][]byte
 	Cache  map[string][]byte
 	Remote func(path string) ([]byte, error)
@@ -88,9 +89,47 @@ func (e *Env) serve(res string, data []byte, err error) ([]byte, error) {
 		if (err2 != nil) != (err != nil) || !bytes.Equal(d2, data) {
 			e.Changed++
 		}
-		return d2, err2
+		return e.spare(res, d2), err2
 	}
-	return data, err
+	return e.spare(res, data), err
+}
+
+// spare hands data out as a window of a longer array whose tail holds a sentinel: the bytes behind an answer
+// belong to whoever produced it (a file cache, a response buffer). SpareDamage reports answers whose tail
+// the client wrote into.
+func (e *Env) spare(res string, data []byte) []byte {
+	if data == nil {
+		return nil
+	}
+	b := make([]byte, len(data)+4)
+	copy(b, data)
+	for i := len(data); i < len(b); i++ {
+		b[i] = 0x5e
+	}
+	e.handed = append(e.handed, handed{res, b, len(data)})
+	return b[:len(data)]
+}
+
+type handed struct {
+	res  string
+	full []byte
+	n    int
+}
+
+// SpareDamage returns the resources whose answers were written to behind their end.
+func (e *Env) SpareDamage() []string {
+	e.mu.Lock()
+	defer e.mu.Unlock()
+	var out []string
+	for _, h := range e.handed {
+		for _, c := range h.full[h.n:] {
+			if c != 0x5e {
+				out = append(out, h.res)
+				break
+			}
+		}
+	}
+	return out
 }
 
 func (e *Env) ReadRemote(path string) ([]byte, error) {
